@@ -17,7 +17,10 @@ CONSTANTS States,        \* set of state names
           MultiStates,   \* subset: Multi states (re-activation ticks +2)
           ClockAliased,  \* repaired SetSchema: the manager keeps reading the machine's clock
           QueryFixed,    \* repaired WhenQuery ctx handling (map initialised, right map cleaned)
-          DisposeQuery   \* repaired dispose: whenQuery channels are closed too
+          DisposeQuery,  \* repaired dispose: whenQuery channels are closed too
+          ArgsReuseExact \* repaired WhenArgs: a channel is shared only by EQUAL requests
+                         \* (pinned code: by any request whose args are a SUBSET of an
+                         \* existing binding's, whatever its context)
 
 VARIABLES active,     \* set of active states
           clock,      \* state -> tick (the machine's clock map)
@@ -117,6 +120,40 @@ SubWhenQueue(tick) ==
               should |-> qtick >= tick, alias |-> 0, live |-> ~(qtick >= tick)])
   /\ UNCHANGED <<active, clock, subClock, aliased, phase, pend, sctx, dead, qtick, disposed, crashed>>
 
+(* WhenArgs(state, args, ctx) (subscriptions.go:693-741): closes when the      *)
+(* state's final handler event (FooState) is emitted by a transition whose    *)
+(* mutation args contain `args` (compareArgs: every requested key has the     *)
+(* requested value).  args: a set of <<key, value>> pairs.                    *)
+ArgsReuse(state, args, ctx) ==
+  {j \in 1..Len(binds) :
+     /\ binds[j].live /\ binds[j].alias = 0 /\ binds[j].kind = "whenargs"
+     /\ binds[j].state = state
+     /\ IF ArgsReuseExact THEN binds[j].args = args /\ binds[j].ctx = ctx
+        ELSE args \subseteq binds[j].args}
+
+SubWhenArgs(state, args, ctx) ==
+  /\ ~disposed /\ ~crashed
+  /\ LET expired == ctx # 0 /\ ctx \in dead
+         reuse == IF expired THEN {} ELSE ArgsReuse(state, args, ctx)
+     IN NewBind([kind |-> "whenargs", state |-> state, args |-> args, ctx |-> ctx,
+                 closed |-> expired, should |-> FALSE,
+                 alias |-> IF reuse = {} THEN 0 ELSE CHOOSE j \in reuse : \A k \in reuse : j <= k,
+                 live |-> ~expired /\ reuse = {}])
+  /\ UNCHANGED <<active, clock, subClock, aliased, phase, pend, sctx, dead, qtick, disposed, crashed>>
+
+(* Machine.WhenQueueEnds (machine.go:682-694): closed at once unless the queue *)
+(* is being processed; otherwise closed when this drain ends                   *)
+SubWhenQueueEnds ==
+  /\ ~disposed /\ ~crashed
+  /\ NewBind([kind |-> "whenqueueends", ctx |-> 0, closed |-> phase = "idle",
+              should |-> phase = "idle", alias |-> 0, live |-> phase # "idle"])
+  /\ UNCHANGED <<active, clock, subClock, aliased, phase, pend, sctx, dead, qtick, disposed, crashed>>
+
+(* WhenTicks(state, n) = WhenTime(state, Tick(state) + n); WhenNextActive =    *)
+(* WhenTicks(state, NextActiveIn(tick)): 2 when active, 1 when not             *)
+SubWhenTicks(s, n, ctx) == SubWhenTime([x \in {s} |-> clock[s] + n], ctx)
+SubWhenNextActive(s, ctx) == SubWhenTicks(s, IF IsActive(clock[s]) THEN 2 ELSE 1, ctx)
+
 (* NewStateCtx: one context per state is kept and handed out again            *)
 SubStateCtx(s) ==
   /\ ~disposed /\ ~crashed
@@ -148,7 +185,20 @@ TxApply(tx) ==
                        THEN [sctx[i] EXCEPT !.canceled = TRUE, !.indexed = FALSE]
                        ELSE sctx[i]]
      ELSE UNCHANGED <<active, clock, sctx>>
-  /\ UNCHANGED <<subClock, aliased, binds, dead, disposed, crashed>>
+  \* ProcessWhenArgs runs at the end of EVERY handler event that was not
+  \* vetoed, the negotiation ones included: bindings whose context ended are
+  \* collected before the transition is applied.  (A canceled transition
+  \* collects them only if an event completed before the vetoed one; the
+  \* harness vetoes the first event, the property tolerates either.)
+  /\ binds' = [i \in 1..Len(binds) |->
+                IF tx.accepted /\ binds[i].kind = "whenargs" /\ binds[i].live
+                   /\ binds[i].ctx # 0 /\ binds[i].ctx \in dead
+                THEN [binds[i] EXCEPT !.closed = TRUE, !.live = FALSE] ELSE binds[i]]
+  /\ UNCHANGED <<subClock, aliased, dead, disposed, crashed>>
+
+ArgsMatch(b, tx) ==
+  /\ "activated" \in DOMAIN tx /\ tx.accepted /\ ~tx.check
+  /\ b.state \in tx.activated /\ b.args \subseteq tx.args
 
 (* one binding through ProcessWhen / ProcessWhenTime / ProcessWhenQueue /     *)
 (* ProcessWhenQuery; returns the updated record                               *)
@@ -183,6 +233,13 @@ ProcBind(b, tx, before) ==
                     !.matched = m2, !.closed = done, !.live = ~done]
      ELSE IF b.kind = "whenqueue" THEN
        IF b.tick <= qtick THEN [b EXCEPT !.closed = TRUE, !.live = FALSE] ELSE b
+     ELSE IF b.kind = "whenargs" THEN
+       \* ProcessWhenArgs(e) runs with every handler event; e.Name = FooState for
+       \* the states the transition activates
+       IF ArgsMatch(b, tx) \/ expired
+       THEN [b EXCEPT !.closed = TRUE, !.live = FALSE] ELSE b
+     ELSE IF b.kind = "whenqueueends" THEN
+       [b EXCEPT !.closed = TRUE, !.live = FALSE]
      ELSE \* whenquery
        IF QueryHolds(b.q, SubClk) \/ expired
        THEN [b EXCEPT !.closed = TRUE, !.live = FALSE] ELSE b
@@ -194,6 +251,8 @@ ShouldAfter(b, tx) ==
    ELSE IF b.kind = "whennot" THEN b.states \cap active = {}
    ELSE IF b.kind = "whentime" THEN \A s \in DOMAIN b.times : clock[s] >= b.times[s]
    ELSE IF b.kind = "whenqueue" THEN qtick >= b.tick
+   ELSE IF b.kind = "whenargs" THEN ArgsMatch(b, tx)
+   ELSE IF b.kind = "whenqueueends" THEN "activated" \in DOMAIN tx   \* a transition ended, the drain with it
    ELSE QueryHolds(b.q, clock))
   \/ (b.ctx # 0 /\ b.ctx \in dead)
 
@@ -209,6 +268,8 @@ TxProcess ==
                      IF binds[i].kind = "whenqueue" /\ ~tx.check
                      THEN [ProcBind(binds[i], tx, pend.before)
                              EXCEPT !.should = binds[i].should \/ qtick >= binds[i].tick]
+                     ELSE IF binds[i].kind = "whenqueueends"
+                     THEN [ProcBind(binds[i], tx, pend.before) EXCEPT !.should = TRUE]
                      ELSE binds[i]]
   /\ UNCHANGED <<active, clock, subClock, aliased, sctx, dead, qtick, disposed, crashed>>
 
